@@ -526,6 +526,7 @@ def check_C12(ck):
         l[slot] = rng.randrange(1, Q)
         els.append(("single-slot-%d" % slot, O.f12_unflat(l)))
     els.append(("sparse-014", ((F2.rand(rng), F2.rand(rng), (0, 0)), ((0, 0), F2.rand(rng), (0, 0)))))
+    els += mult_special_f12(rng, 1 if not thorough else 5)
     zp = zero_pattern_f12(rng)
     zres = ck.run([("fe/zero-pattern", "finalexp %s" % O.show_f12(a)) for (_, a) in zp])
     for (mask, a), (impl, _) in rng.sample(list(zip(zp, zres)), 6 if not thorough else 30):
@@ -547,6 +548,11 @@ def check_C12(ck):
         (r1, _), (r2, _), (r12, _) = ck.run([("mult", "finalexp %s" % O.show_f12(t)) for t in (xs[0], xs[1], O.f12_mul(xs[0], xs[1]))])
         if r1.count(",") == 11 and r2.count(",") == 11:
             ck.expect(r12 == O.show_f12(O.f12_mul(O.parse_f12(r1), O.parse_f12(r2))), "multiplicative", "finalexp(xy)", r12, "fe(x)fe(y)", "multiplicative")
+    # the final exponentiation applied to its own outputs (values of pairings fed back in)
+    fb = [(c, impl) for (c, x), (impl, _) in zip(els, res) if c in ("random", "norm-one-over-Fq6", "single-slot-1", "sparse-014") and impl.count(",") == 11][:3 if not thorough else 12]
+    for (c, v), (impl, _) in zip(fb, ck.run([("fe/applied-twice", "finalexp %s" % v) for (_, v) in fb])):
+        want = O.show_f12(O.f12_pow(O.parse_f12(v), O.FINAL_EXP))
+        ck.expect(impl == want, "fe=pow", "finalexp(finalexp(%s))" % c, impl[:60], want[:60], "f^(3(q^12-1)/r) on a value of the final exponentiation")
     # outputs of Miller loops
     g1, g2 = grp("g1"), grp("g2")
     (mres, _), = ck.run([("miller-output", "miller %s %s" % (g1.A(g1.gen), g2.A(g2.sub_pt(rng))))])
@@ -980,6 +986,34 @@ def check_C08(ck):
 def _f2s(a): return F2.show(a)
 
 
+def mult_special_f12(rng, n=2):
+    """Fq12 elements with special multiplicative structure (where a fast path for inversion, squaring or the easy part of
+    the final exponentiation would apply): relative norm one over Fq6 (g/conj g), norm one over Fq2-in-Fq6-steps,
+    r-th roots of unity (values of pairings), small-order roots of unity, elements of the cyclotomic subgroup"""
+    out = []
+    rnd = lambda: O.f12_unflat([rng.randrange(Q) for _ in range(12)])
+    for _ in range(n):
+        g = rnd()
+        u = O.f12_mul(g, O.f12_inv(O.f12_conj(g)))                # N_{Fq12/Fq6}(u) = u * conj(u) = 1
+        out.append(("norm-one-over-Fq6", u))
+        out.append(("norm-one-inverse", O.f12_conj(u)))
+        cyc = O.f12_mul(O.f12_pow(u, Q * Q), u)                    # easy part done: cyclotomic subgroup
+        out.append(("cyclotomic", cyc))
+        out.append(("rth-root-of-unity", O.f12_pow(g, O.FINAL_EXP)))
+    omega = pow(2, (Q - 1) // 3, Q)                                # cube root of unity in Fq (2 is a cubic non-residue or gives 1)
+    if omega == 1:
+        omega = pow(3, (Q - 1) // 3, Q)
+    out.append(("cube-root-of-unity", O.f12_unflat([omega] + [0] * 11)))
+    out.append(("fourth-root-of-unity (u)", O.f12_unflat([0, 1] + [0] * 10)))
+    # norm one inside Fq2 (a^2 + b^2 = 1), embedded
+    a = F2.rand(rng)
+    while F2.is_zero(a):
+        a = F2.rand(rng)
+    n1 = F2.mul(a, F2.inv((a[0], (-a[1]) % Q)))
+    out.append(("norm-one-in-Fq2", O.f12_of_f2(n1)))
+    return out
+
+
 def zero_pattern_f12(rng, patterns=None):
     """Fq12 elements for every zero/non-zero pattern of the six Fq2 coefficients (63 non-zero patterns)"""
     out = []
@@ -1050,6 +1084,16 @@ def check_C09(ck):
         cases.append(("fq12/zero-pattern/mul-rev", "fq12 mul %s %s" % (S12(gen12), S12(a)))); exp.append(S12(O.f12_mul(gen12, a)))
         cases.append(("fq12/zero-pattern/sq", "fq12 sq %s" % S12(a))); exp.append(S12(O.f12_mul(a, a)))
         cases.append(("fq12/zero-pattern/inv", "fq12 inv %s" % S12(a))); exp.append("?inv12")
+    for (cl, a) in mult_special_f12(rng, 2 if not thorough else 6):
+        cases.append(("fq12/%s/inv" % cl, "fq12 inv %s" % S12(a))); exp.append("?inv12")
+        cases.append(("fq12/%s/sq" % cl, "fq12 sq %s" % S12(a))); exp.append(S12(O.f12_mul(a, a)))
+        cases.append(("fq12/%s/mul" % cl, "fq12 mul %s %s" % (S12(a), S12(gen12)))); exp.append(S12(O.f12_mul(a, gen12)))
+        cases.append(("fq12/%s/mul-conj" % cl, "fq12 mul %s %s" % (S12(a), S12(conj(a))))); exp.append(S12(O.f12_mul(a, conj(a))))
+        if cl == "norm-one-in-Fq2":
+            a2 = a[0][0]
+            cases.append(("fq2/norm-one/inv", "fq2 inv %s" % _f2s(a2))); exp.append(_f2s(F2.inv(a2)))
+            cases.append(("fq2/norm-one/sq", "fq2 sq %s" % _f2s(a2))); exp.append(_f2s(F2.mul(a2, a2)))
+            cases.append(("fq6/norm-one/inv", "fq6 inv %s" % S6(a[0]))); exp.append("?inv6")
     gen6 = r6()
     for mask in range(1, 8):
         a = tuple(F2.rand(rng) if (mask >> i) & 1 else (0, 0) for i in range(3))
